@@ -494,7 +494,10 @@ fn cmd_run(args: &[String]) -> i32 {
         return 2;
     };
     let runs: u64 = arg_val(args, "--runs").map(|s| s.parse().unwrap()).unwrap_or_else(|| engine.runs(thorough));
-    let cap_s: Option<f64> = arg_val(args, "--max-seconds").map(|s| s.parse().unwrap());
+    // wall-clock cap per batch (never inside a run): thorough batches stop after 30 min
+    let cap_s: Option<f64> = arg_val(args, "--max-seconds")
+        .map(|s| s.parse().unwrap())
+        .or(if thorough { Some(1800.0) } else { None });
     let known = load_known();
     println!("simcheck: property={prop} tier={tier} VERIF_SEED={seed} runs={runs} threads={threads}");
     let t0 = Instant::now();
